@@ -322,15 +322,15 @@ func c01(r *vc.Run) int {
 		}
 	}
 	cov := map[string]any{
-		"evaluations":            m.Events["seeds_inserted"],
-		"distinct_nontrivial":    interleavings,
-		"rule":                   "one evaluation = one seed accepted by the reactor in a full-pipeline run (hubs as input seeds, their anchors travel through the real local queue; generated sites with duplicate/shared/invalid/excluded assets, 4xx/5xx, retries, resets, redirect chains and loops, JSON/XML/M3U8 assets of assets) under a configuration from workers{1,2,4,8} x max-concurrent-assets{1,2,8} x seencheck on/off with seeded hook-point perturbation; distinct = distinct interleaving signatures (relative order of stage hand-offs and finish notifications across seeds)",
-		"samples":                m.Samples,
-		"events":                 m.Events,
-		"pipeline_runs":          m.Children,
-		"stopped_mid_flight_runs": stopRuns,
+		"evaluations":               m.Events["seeds_inserted"],
+		"distinct_nontrivial":       interleavings,
+		"rule":                      "one evaluation = one seed accepted by the reactor in a full-pipeline run (hubs as input seeds, their anchors travel through the real local queue; generated sites with duplicate/shared/invalid/excluded assets, 4xx/5xx, retries, resets, redirect chains and loops, JSON/XML/M3U8 assets of assets) under a configuration from workers{1,2,4,8} x max-concurrent-assets{1,2,8} x seencheck on/off with seeded hook-point perturbation; distinct = distinct interleaving signatures (relative order of stage hand-offs and finish notifications across seeds)",
+		"samples":                   m.Samples,
+		"events":                    m.Events,
+		"pipeline_runs":             m.Children,
+		"stopped_mid_flight_runs":   stopRuns,
 		"stopped_mid_flight_events": int(stopChecked.Load()),
-		"interleaving_signatures": interleavings,
+		"interleaving_signatures":   interleavings,
 	}
 	if cov["samples"] == nil {
 		cov["samples"] = []any{}
